@@ -753,7 +753,10 @@ static void c10_exec(const Plan &plan, Verdict &v)
 			} else if (plan.p("fail_permille", 0) == 0) c.al.clear_faults();
 			// an abandoned coder gets only part of its input and never FINISH'es
 			run_stream_flow(c, *d, &s, fo);
-			if (op.has("fail_rel") && c.al.failures > 0 && !c.mem_error_seen && !c.violated) c.viol("failure-not-reported", fmt("re-initialised coder finished with status %s although allocation #%u after the re-init failed", ret_name(fo.status), c.al.fail_nth));
+			// (an abandoned coder stops calling before a worker thread's failure has to surface)
+			// (nor is the failure B's when workers of an abandoned threaded coder A were still allocating while B's init shut them down)
+			bool prev_busy_workers = datas.size() >= 2 && datas[datas.size() - 2]->threaded && datas[datas.size() - 2]->abandon;
+			if (op.has("fail_rel") && !d->abandon && !prev_busy_workers && c.al.failures > 0 && !c.mem_error_seen && !c.violated) c.viol("failure-not-reported", fmt("re-initialised coder finished with status %s although allocation #%u after the re-init failed", ret_name(fo.status), c.al.fail_nth));
 			if (d->cleanup) d->cleanup(&c.al.a);
 			if (d->dest_index && !d->cleanup) {}
 			if (c.violated) break;
